@@ -20,15 +20,15 @@ Theorem C06_scan_complete_closed : forall dur est v t j p w rc,
      feasible dur v (insert_after t (sc_index r) (target t j p w (sc_index r))) = true /\ pl = pdata t j p w (sc_index r)).
 Proof. exact scan_complete_closed. Qed.
 
-(* the same for the whole evaluation of a single job (route-level pre-checks of both features + scan), pure static demand
-   (delivery only, pickup only or none): exhaustive mode reports failure only when the simulation finds no feasible position,
-   and the position it returns is a feasible one *)
+(* the same for the whole evaluation of a single job (route-level pre-checks of both features + scan), static demand
+   (a delivery amount, a pickup amount, both - as merged jobs have - or none): exhaustive mode reports failure only when the
+   simulation finds no feasible position, and the position it returns is a feasible one *)
 Theorem C06_eval_single_complete_closed : forall dur est rc v shift_start t j p w k,
   s_places j = [p] -> p_tws p = [w] ->
   (forall a b, 0 <= dur a b) -> 0 <= p_svc p -> 0 <= v_cap v ->
   sched_ok dur t -> feasible dur v t = true ->
   Forall (fun a => a_tws a <= v_shift_end v) t -> fst w <= v_shift_end v -> shift_start <= snd w ->
-  (forall d, d_change (a_dem (hd d t)) = 0) -> 0 <= start_delivery t -> pure_static (s_dem j) ->
+  (forall d, d_change (a_dem (hd d t)) = 0) -> 0 <= start_delivery t -> static_demand (s_dem j) ->
   (2 <= length t)%nat -> (k < length t - 1)%nat ->
   feasible dur v (insert_after t k (target t j p w k)) = true ->
   exists idx pl c, eval_single_gen dur est rc v shift_start true t j PAny = ESuccess idx pl c /\
